@@ -620,6 +620,8 @@ pub fn main(opts: &Opts) -> ! {
     });
     let stop = AtomicBool::new(false);
     let deadline = Some(t0 + std::time::Duration::from_secs_f64(budget));
+    let seed = opts.seed;
+    set_watch(Watch { property: "C16", limit_s: 600, describe: Box::new(move |i| format!("construction case {} (a seed search and a PEG run): {}", i, gen_case(seed, i).to_json())) });
     let done = par_map(n, opts.threads, deadline, &stop, |i| {
         let case = gen_case(opts.seed, i);
         let obs = run_case(&case);
